@@ -41,6 +41,7 @@ import DateutilVerif.Proofs.RRuleSetSpec
 import DateutilVerif.Proofs.CacheGlobal
 import DateutilVerif.Proofs.RSetHistoryInv
 import DateutilVerif.Generated.RRBaseCache
+import DateutilVerif.Proofs.MergePy
 
 namespace C10
 open RSet
@@ -91,6 +92,50 @@ theorem history_inv (cacheOn : Bool) (ops : List Op) (hsorted : ∀ op ∈ ops, 
 theorem history_inv_any (cacheOn : Bool) (ops : List Op) (hsorted : ∀ op ∈ ops, opSorted op) (hfit : AllFit {} ops) :
     Agree {} ops (runOps (newState cacheOn) ops) (specOps {} ops) :=
   history_good_any ops (newState cacheOn) {} (good_init cacheOn) hsorted hfit
+
+/-! ### the merge loop read from the source
+
+`Gen.genitemInit / genitemNext / genitemCmp / rsetIterProgram` (Generated/RSetMerge.lean) are `rruleset._genitem.__init__`,
+`__next__`, the four comparison methods and the generator `rruleset._iter` as `harness/translate_rrbase.py` parses them from
+/repo's working tree on every run — the statements in source order, from a strict vocabulary; `heapq.heapify / heapreplace /
+heappop` are named primitives with the contract "index 0 holds some minimal item" (`sel`).  `MergePy.runIter` is their meaning. -/
+
+/-- **gen_rset_iter_eq_model.** The translated `_iter` (with the translated `_genitem`) yields exactly the merge model
+    `RSet.iter sel inc exc` and counts `total` = its length — for ALL members and EVERY admissible heap discipline. -/
+theorem gen_rset_iter_eq_model (sel : Sel) (adm : Admissible sel) (m : Members) :
+    MergePy.runIter sel Gen.genitemInit Gen.genitemNext Gen.genitemCmp Gen.rsetIterProgram m =
+      some (iter sel m.inc m.exc, (iter sel m.inc m.exc).length) := by
+  unfold MergePy.runIter
+  have hs : (MergePy.setupOk Gen.rsetIterProgram && Gen.rsetIterProgram.publishesLenGuarded) = true := by decide
+  simp only [hs, Bool.not_true, Bool.false_eq_true, ↓reduceIte, MergePy.cursorsOf_eq]
+  obtain ⟨s', h1, h2, h3⟩ := MergePy.loop_eq adm (totalLen m.inc + 1) { rl := m.inc.filterMap mkCursor, ex := m.exc.filterMap mkCursor } rfl rfl
+  rw [h1]
+  simp only [Option.map_some, h2, h3, iter]
+  simp
+
+/-- **rset_iter_eq_spec_source.** Hence `rset_iter_eq_spec` holds of the code as written: the translated `_iter` yields the
+    ordered set (rrules ∪ rdates) \ (exrules ∪ exdates) of the members, each instant once, and publishes its size. -/
+theorem rset_iter_eq_spec_source (sel : Sel) (adm : Admissible sel) (m : Members)
+    (hinc : ∀ s ∈ m.inc, s.Pairwise (· ≤ ·)) (hexc : ∀ s ∈ m.exc, s.Pairwise (· ≤ ·)) :
+    MergePy.runIter sel Gen.genitemInit Gen.genitemNext Gen.genitemCmp Gen.rsetIterProgram m =
+      some (setSpec m.inc m.exc, (setSpec m.inc m.exc).length) := by
+  rw [gen_rset_iter_eq_model sel adm m, rset_iter_eq_spec sel adm m.inc m.exc hinc hexc]
+
+/-- `_genitem` as translated: `__init__` is `mkCursor`; `__next__` on the item at index 0 is `advanceTop` (dirty exactly when the
+    key changed in place); the comparison methods compare `dt` with the operator of their name -/
+theorem gen_genitem_eq_model :
+    (∀ st, MergePy.runInit Gen.genitemInit st = some (mkCursor st)) ∧
+    (∀ c others, (MergePy.runNext Gen.genitemNext c true others).map (·.1) = some (advanceTop c others)) ∧
+    Gen.genitemCmp = { lt := .lt, gt := .gt, eq := .eq, ne := .ne } := by
+  refine ⟨fun st => ?_, fun c others => ?_, rfl⟩
+  · cases st <;> simp [MergePy.runInit, Gen.genitemInit, mkCursor]
+  · cases h : c.rest <;> simp [MergePy.runNext, Gen.genitemNext, advanceTop, h]
+
+-- the obligation distinguishes programs: without the `heapreplace` after advancing the inclusion item the heap stays dirty
+example : MergePy.runIter selFirstMin Gen.genitemInit Gen.genitemNext Gen.genitemCmp
+            { Gen.rsetIterProgram with body := Gen.rsetIterProgram.body.dropLast } { rrules := [[1, 2]] } = none := by decide
+example : MergePy.runIter selFirstMin Gen.genitemInit Gen.genitemNext Gen.genitemCmp Gen.rsetIterProgram
+            { rrules := [[1, 2, 5], [2, 3]], rdates := [9, 0], exdates := [3] } = some ([0, 1, 2, 5, 9], 5) := by decide
 
 /-- **gen_invalidate_eq_model.** `rrulebase._invalidate_cache` as translated from the source (`Gen.invalidateProgram`,
     meaning `CachePy.runIL`) on a cached object, whatever its state: a fresh cache list, `_cache_complete` False, a fresh
